@@ -243,3 +243,31 @@ def fits_p(x, p):
     """|x| = c 2^exp can be written with a significand of at most p digits: c without trailing zeros has <= p digits"""
     over = bl(x._c) - p
     return True if over <= 0 else fmod(x._c, pow2(over)) == 0
+
+
+# ---------------------------------------------------------------------------
+# extended values: Float (finite | +-inf | NaN) and the special Python floats
+
+def special(x):
+    """(is NaN, is infinite, sign) of an operand of any of the five numeric types"""
+    if cls_name(x) == 'Float':
+        return (x._isnan, x._isinf, x._real._s)
+    if cls_name(x) == 'float':
+        return (f64_isnan(x), f64_isinf(x), f64_sign(x))
+    return (False, False, False)
+
+
+def xcmp3(x, other):
+    """(lt, eq, gt) for a Float x (finite, infinite or NaN) against any operand; all false iff unordered"""
+    a = trip(x)
+    o_nan, o_inf, o_neg = special(other)
+    fin = cmp3(a, other)
+    lt = ite(x._isnan, False, ite(x._isinf, not o_nan and a[0] and not (o_inf and o_neg), fin[0]))
+    eq = ite(x._isnan, False, ite(x._isinf, not o_nan and o_inf and o_neg == a[0], fin[1]))
+    gt = ite(x._isnan, False, ite(x._isinf, not o_nan and not a[0] and not (o_inf and not o_neg), fin[2]))
+    return (lt, eq, gt)
+
+
+def fl_same_encoding(r, x):
+    """Float r has the (s, exp, c) and class of Float x"""
+    return (r._isnan == x._isnan and r._isinf == x._isinf and r._real._exp == x._real._exp and r._real._c == x._real._c)
